@@ -160,7 +160,15 @@ where
                 Some(DateToken::Literal(ref s))
                     if { s.to_lowercase() == "bc" || s.to_lowercase() == "bce" } =>
                 {
-                    out.year = out.year.map(|x| -x + 1);
+                    // year -2147483647 BC cannot be negated and shifted
+                    out.year = match out.year {
+                        Some(x) => Some(
+                            x.checked_neg()
+                                .and_then(|x| x.checked_add(1))
+                                .ok_or_else(|| "Year is out of range".to_string())?,
+                        ),
+                        None => None,
+                    };
                     Ok(())
                 }
                 x => Err(format!("Expected AD/BC or CE/BCE, got {}", ts(x))),
